@@ -763,6 +763,7 @@ type wgenOpts struct {
 	selSwzBoost bool
 	multiSwz   bool // multi-component swizzles as values
 	f2iRange   bool // f32 -> i32/u32 conversions of values outside the target range (C01 finding: SPIR-V converts unclamped)
+	bitField   bool // extractBits / insertBits with offsets and counts up to 63 (C01 finding: SPIR-V passes them on unclamped)
 	pack4      bool // pack4x{I,U}8[Clamp] / unpack4x{I,U}8
 	noArrRead  bool // no `a[i]` value reads of local arrays and no array-typed `let`
 	froundBoost bool // knob programs: round() of run-time half-integers stored to the output
@@ -1115,6 +1116,16 @@ func (g *wgen) builtin(t *wty, depth int) *wexpr {
 	}
 	switch sc.k {
 	case "i32", "u32":
+		if g.o.bitField && g.c.chance(0.12) {
+			// offset and count anywhere in 0..63: WGSL clamps them (o = min(offset, 32), c = min(count, 32 - o))
+			oc := func() *wexpr {
+				return &wexpr{k: "bin", ty: tU32, op: "&", args: []*wexpr{g.load(tU32), {k: "lit", ty: tU32, bits: 63, konst: true}}}
+			}
+			if g.c.chance(0.6) {
+				return call("extractBits", g.runtime(t, depth-1), oc(), oc())
+			}
+			return call("insertBits", g.runtime(t, depth-1), g.runtime(t, depth-1), oc(), oc())
+		}
 		if g.o.pack4 && g.c.chance(0.12) {
 			// 4x8 integer packing: exact integer definitions; the writers expand them to `|` / `<<` chains
 			if t.k == "u32" {
